@@ -345,7 +345,7 @@ Fixpoint remove_first (r : vref) (l : list vref) : list vref :=
    variable tracks at that moment) and later compared / looked up BY POINTER, although setVariable() re-targets
    the internal variable in between.  [dependency_fix = true] is the code with fixes/C05-dependency-retarget.diff
    (comparison / lookup through the equivalence class); to be switched when that patch is in /repo. *)
-Definition dependency_fix : bool := false.
+Definition dependency_fix : bool := true.
 
 Fixpoint remove_first_cls (s : system) (k : nat) (l : list vref) : list vref :=
   match l with
